@@ -29,4 +29,18 @@ REGISTRY = {
         "labelled graph on <= 4 (5) vertices: inverse circuit maps the group to +Z^n, reverse run / "
         "clifford_from_stabilizer / CliffordTableau(StabilizerTableau) / graph tableau are valid tableaux of that state.",
         "", "DESIGN.md 6/C11"),
+    "C02": (
+        "real solver output circuits given to TLC as data and executed by the spec over every measurement-outcome branch; "
+        "the same circuits compiled by both real compilers and trace-validated",
+        "Every labelled graph on <= 4 (quick) / <= 5 + samples of 6, 7 (thorough) vertices as graph / stabilizer / dm "
+        "target: TLC explores all outcome combinations of the returned circuit (photons = |G>, emitters |0>, order is a "
+        "linearisation, score 0); compile traces of both backends under forced / random outcomes follow the spec.",
+        "", "DESIGN.md 6/C02"),
+    "C03": (
+        "TLC-enumerated states / graphs fed to the real height functions, judged by TLC against the group-level entropy; "
+        "cut-rank lemma model-checked on all graphs; emitter count of solver circuits checked by TLC",
+        "All stabilizer states n <= 3 in many generating sets, all labelled graphs n <= 4 (5): height[k] = entanglement "
+        "entropy (gauge free), height_max, determine_n_emitters, emitter_sorted; solver circuits use exactly max-height "
+        "emitters and emit each photon once; MC_GraphCut: entropy = GF(2) cut rank for every graph.",
+        "", "DESIGN.md 6/C03"),
 }
